@@ -17,7 +17,7 @@ CLAIM = dict(
          'read alike by the generated lookup_register; decimal / hex / binary spellings are read alike by int(s, 0); '
          'C13_imm_reg_loads/stores: imm(reg) and reg, imm parse to the SAME item for exactly the mnemonics of the generated '
          'BASE_OFFSET_INSTRUCTIONS table; C13_program: line-by-line token-equal versions of a program give the same result of the '
-         'whole model (lex + parse + 16 passes), both modes (blank-line insertion by falsifier only). Tie: model tokens / items vs the '
+         'whole model (lex + parse + 16 passes), both modes ; C13_line_numbers_irrelevant: renaming the lines of the items by ANY function (what extra blank / comment lines do to the physical numbers) leaves bytes, labels and constants unchanged, errors name the renamed line (assemble_relabel through all 16 passes). Tie: model tokens / items vs the '
          'real lex_tokens / parse_item on generated and hand-picked lines. Falsifier: gen_programs x per-line / per-operand '
          'rewrites, bytes + labels, both modes.',
     note='lexer, parser, int(s,0) models are hand-written and tied by differential evaluation only',
